@@ -160,8 +160,13 @@ def run(ctx):
     for c, v, args, kw in ex.callargs:
         if U(c.func).endswith('histogramdd'):
             seen[id(c)] = (c, args, kw)
-    if len(seen) != 1:
+    scatter_tables = check_scatter(ctx, dv)
+    if len(seen) > 1 or (not seen and not scatter_tables):
         raise AnalysisError('Dataset.datavector: expected one histogramdd call')
+    if not seen:
+        check_other_vector_paths(ctx, dv, None, scatter_tables)
+        check_domain(ctx)
+        return
     h, args, kw = list(seen.values())[0]
     sample = args[0] if args else kw.get('sample')
     bins = args[1] if len(args) > 1 else kw.get('bins')
@@ -174,11 +179,94 @@ def run(ctx):
     ctx.ob('histogram', dv, h, bins == ('edges', ('shape', ('dom', 'self.domain'))) or by_count,
            'bin edges must be 0..n (n+1 integer edges) for every attribute size n of self.domain.shape, in domain order; got `%s`'
            % (show(bins) if bins else None), construct='bins of histogramdd')
-    ctx.ob('histogram', dv, h, wts == ('weights', 'self'),
-           'the histogram must be weighted by self.weights; got `%s`' % (show(wts) if wts else None), construct='weights of histogramdd')
+    unweighted_path = wts in (None, ('none',)) and under_weights_test(h, dv.node, want_none=True)
+    ctx.ob('histogram', dv, h, wts == ('weights', 'self') or unweighted_path,
+           'the histogram must be weighted by self.weights (weights may be left out only where self.weights is None); got `%s`' % (show(wts) if wts else None),
+           construct='weights of histogramdd')
 
-    check_other_vector_paths(ctx, dv, h)
+    check_other_vector_paths(ctx, dv, h, scatter_tables)
     check_domain(ctx)
+
+
+def under_weights_test(node, top, want_none):
+    """is `node` on a path where `self.weights is None` is known to be <want_none>?"""
+    child, n = node, getattr(node, '_parent', None)
+    while n is not None and child is not top:
+        if isinstance(n, (ast.If, ast.IfExp)):
+            t = U(n.test).replace(' ', '')
+            pol = {'self.weightsisNone': True, 'self.weightsisnotNone': False}.get(t)
+            if pol is not None:
+                body = n.body if isinstance(n.body, list) else [n.body]
+                orelse = n.orelse if isinstance(n.orelse, list) else [n.orelse]
+                in_body = any(child is b or any(child is z for z in ast.walk(b)) for b in body)
+                in_else = any(child is b or any(child is z for z in ast.walk(b)) for b in orelse)
+                if in_body and pol == want_none:
+                    return True
+                if in_else and pol != want_none:
+                    return True
+        child, n = n, getattr(n, '_parent', None)
+    return False
+
+
+def check_scatter(ctx, dv):
+    """The records ARE cell indices, so the table can be filled by adding each record's weight at its cell: numpy.add.at(T, cells, w)
+    with T = zeros(self.domain.shape), cells = tuple(self.df.values.astype(int).T), w = self.weights (1 where there are none).
+    `T[cells] += w` is NOT that: fancy-index assignment is buffered, a cell that several records fall into receives only the last one.
+    -> names of the tables filled this way"""
+    defs = {}
+    for a_ in ast.walk(dv.node):
+        if isinstance(a_, ast.Assign) and len(a_.targets) == 1 and isinstance(a_.targets[0], ast.Name):
+            defs.setdefault(a_.targets[0].id, []).append(a_.value)
+
+    def res(e):
+        for _ in range(4):
+            if isinstance(e, ast.Name) and len(defs.get(e.id, [])) == 1:
+                e = defs[e.id][0]
+        return e
+    CELLS = ('tuple(self.df.values.astype(int).T)', 'tuple(self.df.values.T.astype(int))', 'tuple(self.df.to_numpy().astype(int).T)',
+             'tuple(self.df.values.astype(np.int64).T)', 'tuple(self.df.values.astype(np.intp).T)')
+    ZEROS = ('np.zeros(self.domain.shape)', 'np.zeros(self.domain.shape,dtype=float)', 'np.zeros(self.domain.shape,float)',
+             'np.zeros(tuple(self.domain.shape))')
+    tables = set()
+    sites = []
+    for n in ast.walk(dv.node):
+        if isinstance(n, ast.Call) and U(n.func) in ('np.add.at', 'numpy.add.at') and len(n.args) == 3:
+            sites.append((n, n.args[0], n.args[1], n.args[2], True))
+        if isinstance(n, ast.AugAssign) and isinstance(n.op, ast.Add) and isinstance(n.target, ast.Subscript) and isinstance(n.target.value, ast.Name):
+            ix = res(n.target.slice)
+            if U(ix).replace(' ', '') in CELLS:
+                sites.append((n, n.target.value, n.target.slice, n.value, False))
+    def res_here(e, site):
+        """definition of a name in the block of `site`, before it (a name defined differently on different branches)"""
+        if not isinstance(e, ast.Name) or len(defs.get(e.id, [])) <= 1:
+            return res(e)
+        st = site
+        while getattr(st, '_parent', None) is not None and not isinstance(st, ast.stmt):
+            st = st._parent
+        par = getattr(st, '_parent', None)
+        for f in ('body', 'orelse'):
+            blk = getattr(par, f, None)
+            if isinstance(blk, list) and st in blk:
+                for prev in reversed(blk[:blk.index(st)]):
+                    if isinstance(prev, ast.Assign) and len(prev.targets) == 1 and U(prev.targets[0]) == e.id:
+                        return prev.value
+        return e
+    for node, T_, C_, W_, unbuffered in sites:
+        tt, ct = U(res_here(T_, node)).replace(' ', ''), U(res_here(C_, node)).replace(' ', '')
+        if tt not in ZEROS or ct not in CELLS or not isinstance(T_, ast.Name):
+            raise AnalysisError('Dataset.datavector: scatter `%s` into `%s` at `%s` is in no recognised form' % (U(node)[:50], tt[:40], ct[:40]))
+        wt = U(W_).replace(' ', '')
+        w_ok = (wt == 'self.weights' and under_weights_test(node, dv.node, want_none=False)) or \
+            wt in ('1.0ifself.weightsisNoneelseself.weights', '1ifself.weightsisNoneelseself.weights', 'self.weightsifself.weightsisnotNoneelse1.0',
+                   'self.weightsifself.weightsisnotNoneelse1') or (wt in ('1', '1.0') and under_weights_test(node, dv.node, want_none=True))
+        tables.add(T_.id)
+        ctx.ob('histogram', dv, node, unbuffered,
+               'every record adds its weight to its cell: %s' % ('numpy.add.at accumulates repeated cells' if unbuffered else
+               '`%s` is a buffered fancy-index update - of the records that share a cell only the last one is counted' % U(node)[:50]),
+               construct='accumulation into the table')
+        ctx.ob('histogram', dv, node, w_ok, 'the table is filled with self.weights (1 per record where there are none); adds `%s`' % U(W_)[:60],
+               construct='weights of the scatter')
+    return tables
 
 
 ONE_ATTR_TESTS = ('len(self.domain)==1', 'len(self.domain.attrs)==1', 'len(self.domain.shape)==1', 'len(self.df.columns)==1',
@@ -189,12 +277,12 @@ ONE_ATTR_COLUMN = ('self.df.values[:,0]', 'self.df.iloc[:,0]', 'self.df[self.dom
                    'self.df.to_numpy()[:,0]', 'self.df.iloc[:,0].values', 'self.df[self.domain.attrs[0]].values', 'self.df.values.reshape(-1)')
 
 
-def check_other_vector_paths(ctx, dv, hist_call):
+def check_other_vector_paths(ctx, dv, hist_call, scatter_tables=()):
     """Every value datavector returns is the histogram over the whole domain, or - on a path that has established a one-attribute
     domain - a count vector with one entry per value of that attribute: numpy.bincount of the single column with self.weights and
     minlength equal to the attribute's size (without minlength the vector ends at the largest value present)."""
     from ..srcmodel import clone
-    derived = set()
+    derived = set(scatter_tables)
     assigns = [n for n in walk_shallow(dv.node) if isinstance(n, ast.Assign)]
     single = {}
     for a in assigns:
@@ -205,7 +293,7 @@ def check_other_vector_paths(ctx, dv, hist_call):
     while changed:
         changed = False
         for a in assigns:
-            if any(x is hist_call for x in ast.walk(a.value)) or any(isinstance(x, ast.Name) and x.id in derived for x in ast.walk(a.value)):
+            if (hist_call is not None and any(x is hist_call for x in ast.walk(a.value))) or any(isinstance(x, ast.Name) and x.id in derived for x in ast.walk(a.value)):
                 for t in a.targets:
                     for x in ast.walk(t):
                         if isinstance(x, ast.Name) and x.id not in derived:
@@ -235,7 +323,7 @@ def check_other_vector_paths(ctx, dv, hist_call):
         return t
     for r in [n for n in walk_shallow(dv.node) if isinstance(n, ast.Return) and n.value is not None]:
         v = r.value
-        if any(x is hist_call for x in ast.walk(v)) or any(isinstance(x, ast.Name) and x.id in derived for x in ast.walk(v)):
+        if (hist_call is not None and any(x is hist_call for x in ast.walk(v))) or any(isinstance(x, ast.Name) and x.id in derived for x in ast.walk(v)):
             continue
         counts = [c for c in ast.walk(ast.parse(resolve(v), mode='eval')) if isinstance(c, ast.Call) and U(c.func) in ('np.bincount', 'numpy.bincount')]
         if len(counts) != 1:
